@@ -174,7 +174,7 @@ theorem task_segment (e : Env) (s : Srv) (conn now : Nat) (sec : List Nat) (h : 
   have hd := segData_eq e.file s.secNo sec h.pos h.data
   have hpos : 0 < sec.length - s.secOff := by omega
   have hto : ¬ (now > now + s.timeout) := by omega
-  unfold runTask
+  unfold runTask pumpStep
   simp [h.st, h.sel, h.con, hd, h.size, hpos, hto, take_min_drop, List.length_take, List.length_drop]
   split <;> omega
 
@@ -185,7 +185,7 @@ theorem task_last (e : Env) (s : Srv) (conn now : Nat) (sec : List Nat) (h : Pum
       ({ s with lastSend := now, st := .waitSectionAck }, [s.send conn s.oa (.lastSegment s.secNo s.secChk)]) := by
   have hn : ¬ (s.secSize - s.secOff > 0) := by rw [h.size, heq]; omega
   have hto : ¬ (now > now + s.timeout) := by omega
-  unfold runTask
+  unfold runTask pumpStep
   simp [h.st, h.sel, h.con, hn, hto]
 
 end Iec.FileSrv
@@ -606,9 +606,11 @@ structure Rx where
   curNo : Nat
   deriving Repr, DecidableEq
 
-/-- SECTION READY for the section in progress = the pass is repeated (its octets are discarded);
-for another section = the previous one is complete.  LAST SECTION completes the last one. -/
+/-- FILE READY (positive) starts a transfer.  SECTION READY for the section in progress = the pass is
+repeated (its octets are discarded); for another section = the previous one is complete.  LAST SECTION
+completes the last one. -/
 def rxStep (r : Rx) : Out → Rx
+  | .send _ _ _ _ _ (.fileReady _ true) => ⟨[], [], 0⟩
   | .send _ _ _ _ _ (.sectionReady n _) =>
     if n = r.curNo then { r with cur := [] } else { done := r.done ++ r.cur, cur := [], curNo := n }
   | .send _ _ _ _ _ (.segment _ d) => { r with cur := r.cur ++ d }
